@@ -70,6 +70,14 @@ theorem step_counter (cfg : Cfg) (m c : Nat) (g : G) (pend : Tid → Bool) (e : 
     simp only [step]
     repeat' split
     all_goals exact ⟨hI, by simp [incs]⟩
+  | arg t u os =>
+    simp only [step]
+    repeat' split
+    all_goals exact ⟨hI, by simp [incs]⟩
+  | rdarg t i =>
+    simp only [step]
+    repeat' split
+    all_goals exact ⟨hI, by simp [incs]⟩
   | rd t u => simp only [step]; split <;> exact ⟨hI, by simp [incs]⟩
   | lock t m' =>
     simp only [step]
